@@ -207,6 +207,7 @@ Z80_FUNCS = ["Z80::emulate", "Z80::handle_interrupt", "Z80::fetch_byte/fetch_wor
              "Opcode::from_byte", "U1/U2/U3::from_byte", "Prefix::from_byte/to_byte", "tables::*", "Z80Bus default methods wait_loop/read/write/read_word/write_word"]
 Z80_INSTR = ["plain_all", "cbx_all", "ed_all", "dd_all", "fd_all", "ddcb_idx", "fdcb_idx", "pend_dd", "pend_fd", "pend_ed",
              "halt_enter", "halt_stay"]
+Z80_SPEC = ["spec_int_im01", "spec_int_im2", "spec_nmi", "spec_shadow_prefix_retn_halt"]
 Z80_INT = ["int_nmi_intlow", "int_nmi_inthigh", "int_im0", "int_im1", "int_im2", "int_masked", "int_shadow"]
 
 
@@ -345,6 +346,10 @@ PROPS = {
         claim="Kani/CBMC proof of step equivalence restricted to interrupt/NMI/HALT/prefix sequencing: acceptance only with IFF1 set and no EI/DI/prefix shadow (the shadow is part of the compared state, so 'never directly after EI/DI' and 'never inside a prefix chain' hold by induction), IFF1/IFF2 effects, HALT release with return address behind the HALT, vectors 0x0038 / word at I*256+bus byte / 0x0066, halted CPU re-executing HALT advancing only R, RETN/RETI copying IFF2 (ED group), prefix-chain steps (DD/FD/ED after DD/FD) setting the shadow.",
         note="Complete over register state; the acceptance-deciding control inputs (shadow flag, line levels, IFF1, IM2-or-not) are enumerated concretely per harness so all combinations are covered by the six int_* harnesses + the instruction groups (lines low). First handler instruction fixed to NOP (instruction space is C01's).",
         kani=[k_z80("K-z80::int", Z80_INT + ["halt_enter", "halt_stay", "pend_dd", "pend_fd", "pend_ed"]),
+              dict(name="K-z80::spec-lemmas", package="rustzx-z80", harnesses=Z80_SPEC, flags=["--solver", "cadical"], jobs=4,
+                   functions={"*": ["(specification) kani/z80/reference.rs ref_step: the C02 rules as lemmas over the reference alone"]},
+                   assumptions=["lemmas over the reference semantics only: they cross-check the trusted specification against the statement, no real code involved"],
+                   timeout=1800),
               k_z80("K-z80::chain", ["dd_all", "fd_all", "ed_all", "plain_all"], tier="thorough")],
         explanation="interrupt acceptance rules as part of the reference step; induction over steps",
         technique="contract-based deductive verification: Kani/CBMC loop-free full-domain harnesses (bit-precise, complete)",
